@@ -1,8 +1,8 @@
 """C12 — long-running programs do not accumulate closures or heap objects; no use after release.
 
 P: theorems of coq/theories/Props/C12.v over Heap/Model.v (slot map with generational keys, reference-counted
-   stores, the discipline checker `balanced`, closure layer of vm.rs); both clauses of the property are refuted on the
-   current tree (leaks F21..F24, use after release F25) with real VM traces as Coq witnesses.
+   stores, the discipline checker `balanced`, closure layer of vm.rs); the steady-state clause is refuted on the
+   current tree (leaks F22..F24) with a real VM trace as Coq witness; F21 (leak) and F25 (use after release) are fixed.
 C: (1) heap.rs differential: random operation sequences (alloc / retain / release / load / store, stale keys
        included) on the real `HeapStorage` (harness bin heap_run, "ops") vs the extracted `hrun` (ocaml/heap_drv.ml).
    (2) hook H2 (cfg mimium_verif; present when vm.rs of vplib.REPO has `pub fn heap_take`): the real VM's event log of
@@ -256,7 +256,8 @@ def s_sched_counter(rng, i):
 
 
 def s_shared_upvalue(rng, i):
-    """temporaries that share an upvalue cell with an escaping closure (4 or more of them: known finding F25)"""
+    """temporaries that share an upvalue cell with an escaping closure (4 or more of them used to free the captured
+    closure while in use: F25, fixed)"""
     n = rng.range(1, 6)
     temps = "".join(f"  let t{i}_{j} = (|x:float| {{ g(x) {fop(rng)} {fnum(rng)} }})({fnum(rng)})\n" for j in range(n))
     return Snip(defs=f"fn mks{i}(g:(float)->float){{\n  let a = |x:float| {{ g(x) }}\n{temps}  a\n}}\n",
@@ -388,44 +389,9 @@ def histories(path):
 
 
 # known-finding classes (KNOWN_FINDINGS.txt); each maps a leaked object's history to a class or None
-F21, F22, F23, F24, F25 = "F21", "F22", "F23", "F24", "F25"
-CLASS_OF = {F21: "local-closure-closed-at-scope-exit", F22: "cloned-closure-never-released",
-            F23: "boxed-value-cloned-never-released", F24: "executed-task-closure-still-referenced",
-            F25: "open-closure-drop-releases-shared-upvalue-refs"}
-
-
-def unowned_releases(path):
-    """Class predicate of F25.  Keys that lose a reference through `drop_closure` of a closure that was never closed:
-    only close_upvalues_by_idx retains the closures found in upvalue cells, so an open closure that reaches 0 and
-    still finds closure-typed Closed cells (shared with a closed sibling) releases references it does not own.
-    Returns (closure keys, heap-wrapper keys) released that way, from the H2 log."""
-    closed = set()
-    stack = []              # open-closure drops in progress: keys of the dropped closures
-    cls, wraps = set(), set()
-    pending_mark = None
-    with open(path) as f:
-        for line in f:
-            p = line.split()
-            if not p or p[0] != "E":
-                continue
-            k, i, v, rc = int(p[1]), int(p[2]), int(p[3]), int(p[4])
-            if k == 0x20:                       # drop_closure(id)
-                pending_mark = (i, v)
-                if stack:
-                    cls.add((i, v))
-                continue
-            if k == 0x16:
-                closed.add((i, v))
-            elif k == 0x12 and pending_mark == (i, v):       # the release of that drop
-                if rc == 0 and (i, v) not in closed:
-                    stack.append((i, v))
-            elif k == 0x13 and stack and stack[-1] == (i, v):  # its free
-                stack.pop()
-            elif k == 0x02 and stack:                          # heap release inside such a drop
-                wraps.add((i, v))
-            if k != 0x20:
-                pending_mark = None
-    return cls, wraps
+F22, F23, F24 = "F22", "F23", "F24"
+CLASS_OF = {F22: "cloned-closure-never-released", F23: "boxed-value-cloned-never-released",
+            F24: "executed-task-closure-still-referenced"}
 
 
 def classify_leak(h):
@@ -435,9 +401,7 @@ def classify_leak(h):
             return F24      # dropped once (scheduler ran it / owner released it) but a CloneHeap reference remains
         if h["ret"] >= 1:
             return F22      # cloned by CloneHeap (argument / return value / stored / scheduled / captured)
-        if h["closed"]:
-            return F21      # never cloned: closed by the scope-exit CloseHeapClosure, so never dropped
-        return None         # open and never cloned: release_heap_closure must drop it at scope exit
+        return None         # never cloned, closed or not: release_heap_closure must drop it at the exit of its frame
     if h["kind"] == "wrapper":
         return F22 if h["ret"] >= 1 else None      # an uncloned wrapper must be freed by release_heap_closures
     if h["kind"] == "box":
@@ -544,9 +508,9 @@ def run(ck):
         "> 0, refcount = count' and never reissues a key (C12_heap_inv); the extracted monitor `balanced` is sound: no "
         "dereference or lookup of a freed key, releases <= references, final live set = keys with positive count, live + "
         "frees = allocs (C12_no_uaf_balanced); net-zero periods keep the live count constant (C12_steady_state_partial); the "
-        "vm.rs closure-layer operations agree with the monitor (C12_closure_ops_replay). Both clauses of the property are "
-        "REFUTED on the current tree with real VM traces as witnesses (C12_steady_state_refuted: leaks, known findings "
-        "F21..F24; C12_no_uaf_refuted: use after release, F25). Correspondence: heap.rs differential; H2 event logs of the "
+        "vm.rs closure-layer operations agree with the monitor (C12_closure_ops_replay). The steady-state clause is REFUTED "
+        "on the current tree with a real VM trace as witness (C12_steady_state_refuted: leaks, known findings F22..F24); "
+        "the former use-after-release witness (F25, fixed) is accepted (C12_former_uaf_witness_accepted). Correspondence: heap.rs differential; H2 event logs of the "
         "real VM replayed by the extracted monitor, every closure-layer operation of the log compared event by event "
         "with the extracted transcription, live counts compared with closures.len()/heap.len(), no live wrapper of a "
         "freed closure; direct N/2, N, 2N comparison on fixtures, examples and generated programs.",
@@ -712,13 +676,6 @@ def check_programs(ck, exe, drv, evdir, progs, N, EVN, CLS_N, have_h2, known):
         m = mon[j] if have_h2 and j < len(mon) else None
         if uaf_panic and (m is None or not m["status"].startswith("reject")):
             # a handle panic that the event log does not explain (or no log): use after release
-            if m is None and F25 in known and r["msg"] == "invalid-callable" and \
-                    len(re.findall(r"\(\|x:float\| \{ g\(x\)", p["src"])) >= 4:
-                # hook absent: syntactic predicate of F25 (four or more temporaries calling the captured g next to an
-                # escaping closure, as generated by s_shared_upvalue / the corpus witness)
-                ck.add("known_" + F25)
-                ck.known(known[F25], f"{p['name']}: panic {r['msg']} at sample {r['at']} [syntactic predicate, no H2]")
-                continue
             ck.violation(f"use after release: {UAF_TAGS[r['msg']]} (panic at sample {r['at']})", rep)
             continue
         if m is not None:
@@ -737,12 +694,6 @@ def check_programs(ck, exe, drv, evdir, progs, N, EVN, CLS_N, have_h2, known):
                         + ("use after release / double release" if rc == "INVALID" or opn in ("retain", "release", "use", "close")
                            else "free of a referenced object or model/VM disagreement")
                         + (f"; the VM then panics ({r['msg']}) at sample {r['at']}" if uaf_panic else ""))
-                if rc == "INVALID" and F25 in known:
-                    ucl, uwr = unowned_releases(cases[j]["evfile"])
-                    if (int(f[3]), int(f[4])) in (ucl if kind & 0x10 else uwr):
-                        ck.add("known_" + F25)
-                        ck.known(known[F25], f"{p['name']}: {what}")
-                        continue
                 ck.violation(what, rep)
                 continue
             ck.add("closure_ops_conformance_checked", m.get("ops", 0))
@@ -758,12 +709,6 @@ def check_programs(ck, exe, drv, evdir, progs, N, EVN, CLS_N, have_h2, known):
                 f = m["status"].split(":")
                 what = (f"after sample {f[1]} the live closure wrapper ({f[2]},{f[3]}) refers to closure ({f[4]},{f[5]}), "
                         f"which has been freed: a dangling handle (use after release at its next call)")
-                if F25 in known:
-                    ucl, uwr = unowned_releases(cases[j]["evfile"])
-                    if (int(f[4]), int(f[5])) in ucl:
-                        ck.add("known_" + F25)
-                        ck.known(known[F25], f"{p['name']}: {what}")
-                        continue
                 ck.violation(what, rep)
                 continue
             if m["status"].startswith("unsettled"):
@@ -818,7 +763,11 @@ def check_programs(ck, exe, drv, evdir, progs, N, EVN, CLS_N, have_h2, known):
                     ck.violation(f"live counts grow (N/2, N, 2N) = {g} in a program whose text makes no closure value "
                                  f"(hook H2 absent: syntactic class predicates)", rep)
                     continue
-                cls += [F24] if "@" in src else [F22 if d_hp > 0 else F21]
+                if d_hp <= 0:
+                    ck.violation(f"closures grow without their wrappers (N/2, N, 2N) = {g}: an uncloned closure is not "
+                                 f"dropped at frame exit (hook H2 absent: syntactic class predicates)", rep)
+                    continue
+                cls += [F24] if "@" in src else [F22]
             if d_hp > 0 and makes_boxes:
                 cls.append(F23)
             if d_cl < 0 or d_hp < 0 or not cls or any(c not in known for c in cls):
@@ -875,9 +824,9 @@ def check_programs(ck, exe, drv, evdir, progs, N, EVN, CLS_N, have_h2, known):
 
 
 def check_witness(ck, exe, drv, evdir, have_h2):
-    """The witness traces of the two refuted clauses (Heap/Witness.v, Heap/WitnessUaf.v) are the real VM's event logs of
-    their SOURCE programs, and the real VM still shows the defect."""
-    for fname, nseg, expect in (("Witness.v", 4, "grows"), ("WitnessUaf.v", 2, "uaf")):
+    """The witness traces (Heap/Witness.v: leak, still present; Heap/WitnessFixed.v: former use after release, must now
+    run and be accepted) are the real VM's event logs of their SOURCE programs."""
+    for fname, nseg, expect in (("Witness.v", 4, "grows"), ("WitnessFixed.v", 3, "accepted")):
         wpath = os.path.join(COQ, "theories", "Heap", fname)
         if not os.path.exists(wpath):
             ck.violation(f"Heap/{fname} is missing", {"kind": "witness", "file": fname}, no_input=True)
@@ -902,10 +851,10 @@ def check_witness(ck, exe, drv, evdir, have_h2):
                              "Props/C12.v and KNOWN_FINDINGS.txt)", rep, no_input=True)
                 continue
         else:
-            ck.coverage["witness_uaf_result"] = [r["st"], r.get("msg"), r.get("at")]
-            if not (r["st"] == "panic" and r.get("msg") in UAF_TAGS):
-                ck.violation("the witness of C12_no_uaf_refuted no longer ends in a dead-handle panic on the real VM (finding "
-                             "fixed? update Props/C12.v and KNOWN_FINDINGS.txt)", rep, no_input=True)
+            ck.coverage["witness_former_uaf_result"] = [r["st"], r.get("msg"), r.get("at")]
+            if r["st"] != "ok":
+                ck.violation("use after release is back: the former F25 witness (Heap/WitnessFixed.v) does not run to the "
+                             f"end on the real VM ({r['st']} {r.get('msg')} at sample {r.get('at')})", rep)
                 continue
         if have_h2:
             got = []
